@@ -392,9 +392,9 @@ PROPS['C13'] = dict(
          'No axioms.')
 
 PROPS['C16'] = dict(
-    sess=[('drain_c16', 300, 5000), ('drain_base', 200, 4000), ('drain_c06', 150, 3000), ('drain_c03', 100, 2000)],
+    sess=[('drain_c16', 300, 5000), ('drain_base', 200, 4000), ('drain_c06', 150, 3000), ('drain_c03', 100, 2000), ('py_hist', 200, 3000)],
     events='wrf', state=['ret', 'ctl', 'rel', 'srv', 'quota', 'h', 'conn', 'live', 'pq', 'cp', 'gen'],
-    monitors=[M.mon_c16, M.mon_c16_flush, M.mon_panic],
+    monitors=[M.mon_c16, M.mon_c16_flush, M.mon_hist, M.mon_panic],
     title='with a responsive broker every accepted operation completes; the session quiesces',
     claim='Proved in Coq: a weight on the three outbound queues (per entry 2 + unwritten bytes while being written, 1 while awaiting '
           'its flush, 0 once sent) is strictly decreased by every write step and every flush step of the engine in every state '
